@@ -433,7 +433,27 @@ def builtin_matrix():
                                                                                                 {"I": "int", "F": "float", "B": "bool", "S": "string", "A": "array"}.get(wt, wt)), src
 
 
-def context_product():
+def context_product(tier="quick"):
+    if tier == "thorough":
+        # the full cross product: every rule violation, in every statement position, after every scope-shaping context,
+        # and after every PAIR of contexts
+        head0 = CTX_HEAD + "fn noop() -> void { (println 0) }\nshadow noop { assert true }\n"
+        ctxs = list(CONTEXTS.items())
+        for (c1n, c1), (c2n, c2) in [(a_, b_) for a_ in ctxs for b_ in ctxs if a_[0] != "none" and b_[0] != "none" and a_[0] != b_[0]]:
+            for rule, (desc, stmt) in ILL.items():
+                body = "    let total: int = 4\n" + c1 + c2 + '    (println "SENTINEL")\n' + stmt + "    return total\n"
+                yield rule, "%s after [%s] then [%s]" % (desc, c1n, c2n), head0 + "fn main() -> int {\n" + body + "}\nshadow main { assert true }\n"
+        for cn, ctx in ctxs:
+            if cn == "none":
+                continue
+            for pn, pl in PLACEMENTS.items():
+                for rule, (desc, stmt) in ILL.items():
+                    if rule == "break-outside-loop" and pn in ("while-body", "for-body", "bare-block-in-loop-in-if"):
+                        continue
+                    if rule == "extern-outside-unsafe" and pn == "unsafe-block":
+                        continue
+                    body = "    let total: int = 4\n" + ctx + '    (println "SENTINEL")\n' + pl.replace("@S", stmt) + "    return total\n"
+                    yield rule, "%s placed in [%s] after [%s]" % (desc, pn, cn), head0 + "fn main() -> int {\n" + body + "}\nshadow main { assert true }\n"
     for cn, ctx in CONTEXTS.items():
         for rule, (desc, stmt) in ILL.items():
             for where in ("same-function", "earlier-function"):
@@ -482,7 +502,7 @@ def _tools(args):
                            ("nano_virt --emit-nvm -o", [virt, p, "--emit-nvm", "-o", os.path.join(d, "out.nvm")], os.path.join(d, "out.nvm"))):
         rc, o, e = common.run(cmd, timeout=120, cwd=d, envx=envx)
         res[tool] = {"rc": rc, "diag": len(e) > 0 or b"rror" in o, "artifact": bool(art and os.path.exists(art)), "sentinel": b"SENTINEL" in o,
-                     "err": (e[-600:] + o[-200:]).decode(errors="replace")}
+                     "err": (e[-4000:] + o[-200:]).decode(errors="replace")}
     return res
 
 
@@ -503,7 +523,7 @@ def run(tier):
             muts.append((rule, desc, pr.program(p2), False))
     for rule, desc, text in EXTRA_TEXT:
         muts.append((rule, desc, text, False))
-    for rule, desc, text in context_product():
+    for rule, desc, text in context_product(tier):
         muts.append((rule, desc, text, rule == "seed"))
     for rule, desc, text in builtin_matrix():
         muts.append((rule, desc, text, False))
@@ -562,9 +582,11 @@ def run(tier):
                 # signature: the only rule violated is a reference to a variable whose scope has ended / is another
                 # function's; failure class: accepted by type_check, then refused late (cc / codegen) or run
                 fid = "typechecker-scope-leak-accepts-out-of-scope"
-            if rule == "consumed-resource" and "resource-use-after-consume-not-fatal" in findings and all(
-                    "after it has been consumed" in r[t]["err"] or "already consumed" in r[t]["err"] for t in ("nanoc -o", "nano_virt --run", "nano_virt --emit-nvm -o")):
-                # signature: the only rule violated is the affine one, and every tool DID print the use-after-consume diagnostic
+            said = [t for t in ("nanoc -o", "nano_virt --run", "nano_virt --emit-nvm -o") if "after it has been consumed" in r[t]["err"] or "already consumed" in r[t]["err"]]
+            if rule == "consumed-resource" and "resource-use-after-consume-not-fatal" in findings and said and all(
+                    t in said for t in ("nanoc -o", "nano_virt --run", "nano_virt --emit-nvm -o") if r[t]["rc"] == 0):
+                # signature: the only rule violated is the affine one, and every tool that went on DID print the
+                # use-after-consume diagnostic (a tool stopped by something else, e.g. the C compiler, is not the finding's business)
                 fid = "resource-use-after-consume-not-fatal"
             if fid:
                 rep.known_finding(fid, findings[fid]["what"])
